@@ -211,9 +211,10 @@ class Mol:
     name: str = ""
 
     def text(self, ext=True, style=0, ws=""):
-        s = "".join(e.text(ext, style, ws) for e in self.elems)
+        # (blanks also between the elements and in front of the mixture specifier)
+        s = ws.join(e.text(ext, style, ws) for e in self.elems)
         if self.mix and ext:
-            s += self.mix
+            s += ws + self.mix
         return s
 
     def tokens(self):
